@@ -79,7 +79,7 @@ def _ut_post(c):
   return z3.And(
       is_entry(c, e, c['param_name'], CK_UPDATE_TAGS),
       # the recorded tag set is a fresh snapshot with the same members
-      is_VRef(fs), ref(fs) >= c.old.alloc, ref(fs) < h.alloc,
+      is_VRef(fs), ref(fs) >= c.old.alloc, ref(fs) < h.alloc, cls_is(h.cls(ref(fs)), 'set'),
       h.hasarr(ref(fs)) == c.old.hasarr(ref(c['updated_tags'])),
       counter(h) == counter(c.old) + 1, GlobalsInv(h),
       h.fld(ref(TRACKING_STATE), 'enabled') == c.old.fld(ref(TRACKING_STATE), 'enabled'))
@@ -115,7 +115,7 @@ def _miss_post(c):
                    h.len(ref(res)) == 0)),
       FA([k], z3.Implies(k != key, z3.And(h.has(H, k) == h0.has(H, k),
                                           h.dget(H, k) == h0.dget(H, k))),
-         patterns=[h.has(H, k)]))
+         patterns=[h.has(H, k), h.dget(H, k)]))
 
 
 contract('history.History.__missing__', F, 'History.__missing__',
@@ -148,7 +148,7 @@ def HistAppended(c, Hv, key, kind, value=None):
       counter(h) == counter(h0) + 1,
       FA([k], z3.Implies(k != key, z3.And(h.has(H, k) == h0.has(H, k),
                                           h.dget(H, k) == h0.dget(H, k))),
-         patterns=[h.has(H, k)]))
+         patterns=[h.has(H, k), h.dget(H, k)]))
 
 
 def HistAppendedN(c, Hv, key, specs):
@@ -171,7 +171,7 @@ def HistAppendedN(c, Hv, key, specs):
       counter(h) == counter(h0) + len(specs),
       FA([k], z3.Implies(k != key, z3.And(h.has(H, k) == h0.has(H, k),
                                           h.dget(H, k) == h0.dget(H, k))),
-         patterns=[h.has(H, k)])]
+         patterns=[h.has(H, k), h.dget(H, k)])]
   for j, (kind, value, extra) in enumerate(specs):
     e = h.elt(l, n0 + j)
     r = ref(e)
@@ -197,7 +197,7 @@ def _snapshot(c, e):
   """The entry's new_value is a fresh frozen copy of the tag set passed in."""
   h = c.heap
   fs = h.fld(ref(e), 'new_value')
-  return z3.And(is_VRef(fs), ref(fs) >= c.old.alloc, ref(fs) < h.alloc,
+  return z3.And(is_VRef(fs), ref(fs) >= c.old.alloc, ref(fs) < h.alloc, cls_is(h.cls(ref(fs)), 'set'),
                 h.hasarr(ref(fs)) == c.old.hasarr(ref(c['updated_tags'])))
 
 
